@@ -106,6 +106,7 @@ def build_chart(spec, fmt, strings, lib):
         model = RefSSCChart()
         for it in spec["items"]:
             k, v = it[0], it[1]
+            k = (k + "x")[:-1]          # run-time built key object (never the interned literal)
             share = it[2] if len(it) > 2 else None
             real[k] = strings.make(v, share)
             model.set(k, model_value(v))
@@ -191,6 +192,36 @@ def apply_op(real_sf, model_sf, op, strings, lib, fmt):
         return None
     is_smchart = isinstance(model, RefSMChart)
 
+    if name == "extra_inplace":
+        # edit the list of extra components in place (not rebinding the attribute)
+        if not is_smchart:
+            return None
+        how = op.get("how", "append")
+        v = strings.make(op["value"])
+        if real.extradata is None:
+            real.extradata = []
+        if model.extra is None:
+            model.extra = []
+        pos = op.get("pos", 0)
+        if how == "append":
+            real.extradata.append(v)
+            model.extra.append(op["value"])
+        elif how == "insert":
+            real.extradata.insert(pos, v)
+            model.extra.insert(pos, op["value"])
+        elif how == "setitem" and pos < len(model.extra):
+            real.extradata[pos] = v
+            model.extra[pos] = op["value"]
+        elif how == "del" and pos < len(model.extra):
+            del real.extradata[pos]
+            del model.extra[pos]
+        if not model.extra:
+            model.extra = None
+        return ["ok", None], ["ok", None]
+    if name in ("set_key", "get_key", "del_key", "contains", "move", "dict_pop", "dict_setdefault") \
+            and isinstance(op.get("key"), str):
+        # a key object built at run time: equal to, but not the same object as, any literal
+        op = dict(op, key=(op["key"] + "x")[:-1])
     if name == "set_key":
         k = op["key"]
         v = strings.make(op["value"], op.get("share"))
